@@ -21,10 +21,24 @@ import time
 ROOT = os.path.dirname(os.path.dirname(os.path.abspath(__file__)))
 REPO = os.environ.get("POMEROL_REPO", "/repo")
 BUILD = os.path.join(ROOT, ".build")
+COQ = os.path.join(ROOT, "coq")
+COQ_SRC = COQ
 if os.path.realpath(REPO) != "/repo":
     # scratch copies of the repository (self-tests, seeded changes) get their own build trees
     BUILD = os.path.join(ROOT, ".build", "alt-" + hashlib.sha1(os.path.realpath(REPO).encode()).hexdigest()[:8])
-COQ = os.path.join(ROOT, "coq")
+    COQ = os.path.join(BUILD, "coq")     # private copy of the Coq sources: gen/ is regenerated from the scratch repository
+
+
+def sync_coq():
+    """For scratch repositories: bring the private copy of the Coq sources up to date (mtimes preserved,
+    so make stays incremental); generated files and build products in the copy are left alone."""
+    if COQ == COQ_SRC:
+        return
+    os.makedirs(COQ, exist_ok=True)
+    subprocess.run(["rsync", "-a", "--exclude", "*.vo", "--exclude", "*.vok", "--exclude", "*.vos", "--exclude", "*.glob",
+                    "--exclude", "*.aux", "--exclude", "Makefile*", "--exclude", ".Makefile.d", "--exclude", "_CoqProject",
+                    "--exclude", "/gen/Gen_*.v", "--exclude", "/*.ml", "--exclude", "/*.mli", "--exclude", ".*.cache",
+                    COQ_SRC + "/", COQ + "/"], check=True)
 GUARD = "POMEROL_VERIF"
 NPROC = os.cpu_count() or 4
 
@@ -194,12 +208,14 @@ def run_translators():
     sys.path.insert(0, os.path.join(ROOT, "translator"))
     import translate
     with _Lock("coq"):
+        sync_coq()
         return translate.run_all(REPO, os.path.join(COQ, "gen"))
 
 
 def coq_make(targets, timeout=1500):
     """Full .vo build of the given targets (paths relative to coq/, e.g. props/Properties_C15.vo)."""
     with _Lock("coq"):
+        sync_coq()
         coq_project()
         cmd = ["make", "-k", "-j%d" % NPROC] + list(targets)
         rc, o, e = sh(cmd, cwd=COQ, timeout=timeout)
@@ -415,8 +431,9 @@ class Check:
         ev = {"property_id": self.prop, "tier": self.tier, "seed": self.seed, "level": self.level,
               "coverage": cov, "assumptions": self.assume, "wall_s": round(time.time() - self.t0, 2),
               "violations": len(self.violations) + (1 if (self.broken and not self.violations) else 0)}
-        os.makedirs(os.path.join(ROOT, "evidence"), exist_ok=True)
-        json.dump(ev, open(os.path.join(ROOT, "evidence", self.prop + ".json"), "w"), indent=1, default=str)
+        evdir = os.path.join(ROOT if COQ == COQ_SRC else BUILD, "evidence")   # scratch repositories do not touch /verif/evidence
+        os.makedirs(evdir, exist_ok=True)
+        json.dump(ev, open(os.path.join(evdir, self.prop + ".json"), "w"), indent=1, default=str)
         print("%s tier=%s seed=%d obligations=%d/%d cases=%d distinct=%d violations=%d known=%d wall=%.1fs" % (
             self.prop, self.tier, self.seed, len(self.discharged), len(self.obligations), self.evaluations,
             len(self.distinct), ev["violations"], len(self.known_hits), time.time() - self.t0))
